@@ -122,3 +122,34 @@ Proof.
   intros Hwf. unfold enum_adm. apply enum_total; [exact Hwf|apply Pre_nil|].
   unfold universe. rewrite map_length. simpl. lia.
 Qed.
+
+(* ---------- edges that are not derivations ---------- *)
+(* an excluded-connection or incompatibility edge never makes its target part of an instance: adding one leaves the
+   derivation closure of every assignment unchanged (the implementation followed EXCLUDES edges until a8ef938) *)
+Definition add_edge (g : dsg) (e : edge) : dsg :=
+  {| nodes := nodes g; edges := e :: edges g; start := start g; cons := cons g |}.
+
+Definition non_deriving (e : edge) : Prop := e_kind e = Excludes \/ e_kind e = Incompat.
+
+Lemma dc_succ_add g e m : non_deriving e -> dc_succ (add_edge g e) m = dc_succ g m.
+Proof.
+  intros H. unfold dc_succ, add_edge. simpl. destruct H as [H|H]; rewrite H; rewrite andb_false_r; reflexivity.
+Qed.
+
+Lemma sel_opts_add g e c : non_deriving e -> sel_opts (add_edge g e) c = sel_opts g c.
+Proof.
+  intros H. unfold sel_opts, add_edge. simpl. destruct H as [H|H]; rewrite H; simpl; rewrite andb_false_r; reflexivity.
+Qed.
+
+Theorem reach_ignores_non_deriving_edges g e s n : non_deriving e -> (Reach (add_edge g e) s n <-> Reach g s n).
+Proof.
+  intros He. split; intros H.
+  - induction H as [n Hn|m n _ IH Hc Hn|c o _ IH Hs Hl Ho].
+    + apply R_start. exact Hn.
+    + eapply R_edge; [exact IH|exact Hc|]. rewrite (dc_succ_add g e m He) in Hn. exact Hn.
+    + eapply R_sel; [exact IH|exact Hs|exact Hl|]. rewrite (sel_opts_add g e c He) in Ho. exact Ho.
+  - induction H as [n Hn|m n _ IH Hc Hn|c o _ IH Hs Hl Ho].
+    + apply R_start. exact Hn.
+    + eapply R_edge; [exact IH|exact Hc|]. rewrite (dc_succ_add g e m He). exact Hn.
+    + eapply R_sel; [exact IH|exact Hs|exact Hl|]. rewrite (sel_opts_add g e c He). exact Ho.
+Qed.
